@@ -101,13 +101,15 @@ func (s *socket) RecvMsg() (*protocol.Message, error) {
 	// For now this uses a simple unified queue for the entire
 	// socket.  Later we can look at moving this to priority queues
 	// based on socket pipes.
+	// The deadline covers the whole call: it is armed once, not again
+	// each time a queue resize makes us go round the loop.
+	tq := nilQ
 	for {
 		s.Lock()
 		rq := s.recvQ
 		cq := s.closeQ
 		zq := s.sizeQ
-		tq := nilQ
-		if s.recvExpire > 0 {
+		if tq == nilQ && s.recvExpire > 0 {
 			tq = time.After(s.recvExpire)
 		}
 		s.Unlock()
